@@ -64,15 +64,57 @@ def ncpu():
 
 
 # --------------------------------------------------------------------- builds
-def _run_build(cmd, cwd, log):
+def _run_build(cmd, cwd, log, quiet=False):
     env = dict(os.environ, CARGO_NET_OFFLINE='true', CARGO_TERM_COLOR='never')
     p = subprocess.run(cmd, cwd=cwd, env=env, stdout=subprocess.PIPE, stderr=subprocess.STDOUT)
     with open(log, 'ab') as f:
         f.write(('$ %s\n' % ' '.join(cmd)).encode())
         f.write(p.stdout)
     if p.returncode != 0:
-        sys.stderr.write(p.stdout.decode(errors='replace')[-4000:])
+        if not quiet:
+            sys.stderr.write(p.stdout.decode(errors='replace')[-4000:])
         raise Inconclusive('build failed: %s' % ' '.join(cmd))
+
+
+# The probe is made of independent groups of sub-commands (see probe.rs).  When a change to the repository stops one of them
+# from compiling, that group is left out (--cfg verif_no_<group>) so that the daemon and the other groups stay usable.
+PROBE_GROUPS = ['duration', 'core', 'ratelimit', 'jws', 'proof', 'store', 'acct']
+PROBE_GROUP_OF = {'duration': 'duration', 'sched': 'core', 'cfgdump': 'core', 'firstreq': 'core', 'ratelimit': 'ratelimit', 'jws': 'jws',
+                  'proof': 'proof', 'tlsalpn': 'proof', 'storehist': 'store', 'acctrt': 'acct', 'acctload': 'acct'}
+
+
+def _build_probe_binary(tdir, log):
+    full = ['cargo', 'build', '--release', '--locked', '--offline', '-p', 'acmed', '--features', FEATURE, '--target-dir', tdir]
+    marker = tdir + '.disabled'
+    try:
+        _run_build(full, REPO, log, quiet=True)
+        if os.path.exists(marker):
+            os.remove(marker)
+        return
+    except Inconclusive:
+        pass
+    optional = [g for g in PROBE_GROUPS if g != 'core']
+    attempts = [[g] for g in PROBE_GROUPS] + [optional, PROBE_GROUPS]
+    for off in attempts:
+        cmd = ['cargo', 'rustc', '--release', '--locked', '--offline', '-p', 'acmed', '--bin', 'acmed', '--features', FEATURE,
+               '--target-dir', tdir, '--'] + [x for g in off for x in ('--cfg', 'verif_no_' + g)]
+        try:
+            _run_build(cmd, REPO, log, quiet=True)
+        except Inconclusive:
+            continue
+        with open(marker, 'w') as f:
+            json.dump(off, f)
+        print('NOTE: probe groups left out of this build because they no longer compile against /repo: %s' % ', '.join(off))
+        return
+    _run_build(full, REPO, log)      # nothing helps: report the real error
+
+
+def probe_groups_disabled(binary='acmed_v'):
+    tdir = TARGET + ('/b3' if binary == 'acmed_v3' else '/b1')
+    try:
+        return json.load(open(tdir + '.disabled'))
+    except (OSError, ValueError):
+        return []
 
 
 def build(which=('b1', 'b2', 'harness')):
@@ -94,8 +136,7 @@ def build(which=('b1', 'b2', 'harness')):
             shutil.copyfile(REPO + '/Cargo.lock', hsrc + '/Cargo.lock')
             _run_build(['cargo', 'build', '--release', '--offline', '--target-dir', TARGET + '/harness'], hsrc, log)
         if 'b1' in which:
-            _run_build(['cargo', 'build', '--release', '--locked', '--offline', '-p', 'acmed',
-                        '--features', FEATURE, '--target-dir', TARGET + '/b1'], REPO, log)
+            _build_probe_binary(TARGET + '/b1', log)
         if 'b2' in which:
             _run_build(['cargo', 'build', '--release', '--locked', '--offline',
                         '--target-dir', TARGET + '/b2'], REPO, log)
@@ -363,6 +404,8 @@ class Daemon:
 
 def probe(cmd, lines, timeout=600, binary='acmed_v', env=None, cwd=None):
     """Runs the in-crate probe. Returns (returncode, [json records], stderr text)."""
+    if PROBE_GROUP_OF.get(cmd) in probe_groups_disabled(binary):
+        return (64, [], 'probe group %s was left out of this build (it does not compile against the current tree)' % PROBE_GROUP_OF.get(cmd))
     e = dict(os.environ, ACMED_VERIF_RUN=cmd, RUST_BACKTRACE='0')
     if env:
         e.update(env)
